@@ -351,6 +351,20 @@ def local_namespace_aliases(cls):
     return out
 
 
+def local_alias_targets(cls):
+    """locals of ops.__init__ bound to a primitive of a namespace (`getitem = xp.getitem`): local -> {primitive name};
+    the local's own name says nothing about which primitive it is"""
+    init = cls.methods["__init__"]
+    ns = local_namespace_aliases(cls)
+    out = {}
+    for n in walk_no_nested(init.node):
+        if isinstance(n, ast.Assign) and len(n.targets) == 1 and isinstance(n.targets[0], ast.Name):
+            ch = attr_chain(n.value)
+            if ch and len(ch) >= 2 and ch[0] in ns:
+                out.setdefault(n.targets[0].id, set()).add(ch[-1])
+    return out
+
+
 def local_functions(cls):
     """nested defs inside ops.__init__: name -> FunctionDef"""
     init = cls.methods["__init__"]
